@@ -9,7 +9,7 @@ use std::sync::Arc;
 
 use serde::{Deserialize, Serialize};
 
-use crate::hooks::{Logged, Sched};
+use crate::hooks::{Logged, RaceFault, Sched};
 use crate::ops::Hook;
 
 /// A schedule: run actor `.0` for `.1` operations, then the next segment, ...; when the
@@ -37,8 +37,18 @@ pub fn run<T: Send + 'static>(
     actors: Vec<Box<dyn FnOnce(Hook) -> T + Send>>,
     schedule: &Schedule,
 ) -> RaceOut<T> {
+    run_with_faults(arch, actors, schedule, vec![])
+}
+
+/// As `run`, with injected storage errors (each fails one operation of one actor).
+pub fn run_with_faults<T: Send + 'static>(
+    arch: &Path,
+    actors: Vec<Box<dyn FnOnce(Hook) -> T + Send>>,
+    schedule: &Schedule,
+    faults: Vec<RaceFault>,
+) -> RaceOut<T> {
     let n = actors.len();
-    let sched = Sched::new(arch, n);
+    let sched = Sched::with_faults(arch, n, faults);
     let mut handles = vec![];
     for (i, f) in actors.into_iter().enumerate() {
         let s = Arc::clone(&sched);
